@@ -56,7 +56,11 @@ func c08Rules(p *core.Prog, r *core.Run) {
 	// --- I2
 	psh := p.Func(Ech, "parseServerHello")
 	pcfg := p.Func(Ech, "parseConfig")
-	c04ParserDiscipline(p, r, "C08.I2", []*ssa.Function{m.parseCH, m.parseExt, psh, m.process, pcfg}, map[string]bool{"ech.ErrDecodeError": true, "ech.ErrIllegalParameter": true})
+	parsers := []*ssa.Function{m.parseCH, m.parseExt, psh, m.process}
+	if pcfg != nil {
+		parsers = append(parsers, pcfg)
+	} // else: written into its callers; the copy inside the hello processor is covered there
+	c04ParserDiscipline(p, r, "C08.I2", parsers, map[string]bool{"ech.ErrDecodeError": true, "ech.ErrIllegalParameter": true})
 
 	// --- I7: the reconstructed hello cannot grow beyond the outer hello: each
 	// outer extension is referenced at most once (the Appendix B cursor only
